@@ -724,6 +724,11 @@ def rec_get(R, recv, args, kw, node):
     dflt = args[1] if len(args) > 1 else mk_none()
     if name not in fields:
         return dflt
+    if recv.t.kind == "drec" and fields[name].heap:
+        c = R.heap[recv.z].content
+        if name in optional and not R.pure:
+            return c[name] if R.decide(c["has_" + name].z, lab(R, node, "get")) else dflt
+        return c[name]
     rec = records.as_rec(R, recv, R.old_heap)
     val = V(rec.t.fields[name], rec.t.get(rec.z, name))
     if name not in optional:
